@@ -188,6 +188,9 @@ func genStats(rt *rapid.T, classes []uint32, now time.Time) (*iscc.PreviousExecu
 			candidates = append(candidates, c)
 		}
 	}
+	if len(classes) >= 3 && rapid.IntRange(0, 3).Draw(rt, "tieredStats") == 0 {
+		return genTieredStats(rt, classes), []string{"stored:tiered"}
+	}
 	maxSamples := rapid.SampledFrom([]int{2, 4, 8, 12}).Draw(rt, "maxSamples")
 	// The PageRank computation proper only runs when the largest size
 	// class has a success and no smaller one lacks samples: make every
@@ -254,6 +257,46 @@ func genStats(rt *rapid.T, classes []uint32, now time.Time) (*iscc.PreviousExecu
 		panic(err)
 	}
 	return out, labels
+}
+
+var tierDurations = []time.Duration{
+	time.Millisecond, 40 * time.Millisecond, 2 * time.Second, 90 * time.Second, 20 * time.Minute, 3 * time.Hour,
+}
+
+// genTieredStats draws statistics in which every listed size class has
+// many identical samples: all successes of one of six widely spaced
+// durations, or all failures. The pairwise IsFaster probabilities are
+// then close to 0 or 1, which makes the PageRank chain mix slowly; the
+// stored probabilities are individually valid but need not sum to one
+// (which also happens by itself when size classes are added later and
+// get the default of 0.5).
+func genTieredStats(rt *rapid.T, classes []uint32) *iscc.PreviousExecutionStats {
+	st := &iscc.PreviousExecutionStats{SizeClasses: map[uint32]*iscc.PerSizeClassStats{}}
+	samples := rapid.SampledFrom([]int{6, 12, 32, 100}).Draw(rt, "tierSamples")
+	for i, c := range classes {
+		b := &iscc.PerSizeClassStats{}
+		tier := rapid.IntRange(0, len(tierDurations)).Draw(rt, "tier")
+		if i == len(classes)-1 && tier == len(tierDurations) {
+			tier = rapid.IntRange(0, len(tierDurations)-1).Draw(rt, "largestTier")
+		}
+		for j := 0; j < samples; j++ {
+			if tier == len(tierDurations) {
+				b.PreviousExecutions = append(b.PreviousExecutions, &iscc.PreviousExecution{Outcome: &iscc.PreviousExecution_Failed{Failed: &emptypb.Empty{}}})
+			} else {
+				b.PreviousExecutions = append(b.PreviousExecutions, &iscc.PreviousExecution{Outcome: &iscc.PreviousExecution_Succeeded{Succeeded: durationpb.New(tierDurations[tier])}})
+			}
+		}
+		switch rapid.IntRange(0, 3).Draw(rt, "tierProbKind") {
+		case 0:
+			// absent: the calculator starts from 0.5
+		case 1:
+			b.InitialPageRankProbability = 0.999
+		default:
+			b.InitialPageRankProbability = rapid.Float64Range(0, 1).Draw(rt, "tierProb")
+		}
+		st.SizeClasses[c] = b
+	}
+	return st
 }
 
 // outcomeMix reports whether the buckets of the listed size classes hold
